@@ -185,3 +185,189 @@ Theorem C12_state_example :
      = [Some (XS (AFin 7)); Some (XS (AFin 7)); Some (XS (AFin 14)); Some (XS (AFin 122))]%Z).
 Proof. exact (conj Demo.g_wf (conj Demo.names_ok (conj Demo.c12_hypotheses Demo.end_of_fit_runs))). Qed.
 Print Assumptions C12_state_example.
+
+(* ====================================================================== HISTORIES on one model object
+   The self-consistency clause for any sequence of load_parameters / fit on ONE model (Io/History.v): load_parameters =
+   assign the provided parameters; reset EVERY population variable to the mode of its prior under the NEW parameters
+   (unconditionally); read the derived values to compare.  A fit = what the iterations did to the State (any transformer)
+   followed by the end-of-fit script. *)
+From Leaspy Require Import Io.History Io.HistoryExec Io.HistoryProofs Compose.StateHistory Compose.StateHistoryProofs Compose.HistoryExamples.
+
+(** Tie: the statements of StatefulModel.load_parameters regenerated from the source are the model's — in particular the
+    reset of the population variables is NOT guarded (a guard is expressible: LpIfPopsUnset, and is another script). *)
+Theorem C12_tie_load_parameters : gen_load_parameters = load_parameters_ops.
+Proof. reflexivity. Qed.
+Print Assumptions C12_tie_load_parameters.
+
+(** One load_parameters on ANY state (whatever the model already holds), abstract store with the five interface hypotheses. *)
+Theorem C12_load_parameters_self_consistent :
+  forall (V St : Type) (get : St -> string -> V) (set : string -> V -> St -> St)
+         (stat : prior_stat -> string -> (string -> V) -> V) (isset : St -> string -> bool)
+         (vals : St -> string -> V) (eval : (string -> V) -> string -> V) (indep : string -> bool)
+         (prior_params : string -> list string),
+    (forall s n, get s n = eval (vals s) n) ->
+    (forall s n v m, indep n = true -> vals (set n v s) m = EndOfFitProofs.upd V (vals s) n v m) ->
+    (forall a n, indep n = true -> eval a n = a n) ->
+    (forall a a' n, (forall m, a m = a' m) -> eval a n = eval a' n) ->
+    forall pops : list string,
+    NoDup pops ->
+    (forall pp, In pp pops -> indep pp = true) ->
+    (forall k pp g g', (forall q, In q (prior_params pp) -> g q = g' q) -> stat k pp g = stat k pp g') ->
+    (forall pp q, In pp pops -> In q (prior_params pp) -> indep q = true /\ ~ In q pops) ->
+    forall (a : list (string * V)) (s : St), params_ok V indep pops a ->
+      let s' := load_parameters V St get set stat isset pops a s in
+      at_mode V St get stat pops s' /\
+      (NoDup (map fst a) -> forall p v, In (p, v) a -> get s' p = v) /\
+      (forall q, indep q = true -> ~ In q pops -> ~ In q (map fst a) -> get s' q = get s q) /\
+      (forall n, get s' n = eval (fresh_model V stat pops (updl V a (vals s))) n).
+Proof. exact load_parameters_spec. Qed.
+Print Assumptions C12_load_parameters_self_consistent.
+
+(** After ANY sequence of load_parameters / fit / observer events whose last load_parameters-or-fit is [e], followed by any
+    observers [rs] (to_dict, save: reads that fill the cache) (run by any runner that leaves the non-derived values
+    of the scripts of Io/History.v): population variables = prior modes read in the final state, parameters = the LAST ones,
+    every read = from-scratch value of a fresh model under them. *)
+Theorem C12_history_self_consistent :
+  forall (V St : Type) (get : St -> string -> V) (set : string -> V -> St -> St) (clone : St -> St)
+         (stat : prior_stat -> string -> (string -> V) -> V) (isset : St -> string -> bool)
+         (vals : St -> string -> V) (eval : (string -> V) -> string -> V) (indep : string -> bool)
+         (prior_params : string -> list string),
+    (forall s n, get s n = eval (vals s) n) ->
+    (forall s n v m, indep n = true -> vals (set n v s) m = EndOfFitProofs.upd V (vals s) n v m) ->
+    (forall s m, vals (clone s) m = vals s m) ->
+    (forall a n, indep n = true -> eval a n = a n) ->
+    (forall a a' n, (forall m, a m = a' m) -> eval a n = eval a' n) ->
+    forall pops : list string,
+    NoDup pops ->
+    (forall pp, In pp pops -> indep pp = true) ->
+    (forall k pp g g', (forall q, In q (prior_params pp) -> g q = g' q) -> stat k pp g = stat k pp g') ->
+    (forall pp q, In pp pops -> In q (prior_params pp) -> indep q = true /\ ~ In q pops) ->
+    forall rn : St -> event V St -> option St,
+    (forall s e, event_ok V St indep pops e ->
+       exists x y, rn s e = Some x /\ run_event V St get set clone stat isset pops s e = Some y /\ forall m, vals x m = vals y m) ->
+    forall (h : list (event V St)) (e : event V St) (rs : list (list string)) (s : St),
+      Forall (event_ok V St indep pops) (h ++ [e]) -> is_read e = false ->
+      exists s1 s', run_hist V St rn h s = Some s1 /\ run_hist V St rn (h ++ e :: reads V St rs) s = Some s' /\
+        at_mode V St get stat pops s' /\
+        (forall q, indep q = true -> ~ In q pops -> get s' q = after V St vals e s1 q) /\
+        (forall n, get s' n = eval (fresh_model V stat pops (after V St vals e s1)) n).
+Proof. exact history_self_consistent. Qed.
+Print Assumptions C12_history_self_consistent.
+
+(** Two model objects with ANY two pasts: if the last parameters (and other non-population values) agree, all reads agree. *)
+Theorem C12_history_independent :
+  forall (V St : Type) (get : St -> string -> V) (set : string -> V -> St -> St) (clone : St -> St)
+         (stat : prior_stat -> string -> (string -> V) -> V) (isset : St -> string -> bool)
+         (vals : St -> string -> V) (eval : (string -> V) -> string -> V) (indep : string -> bool)
+         (prior_params : string -> list string),
+    (forall s n, get s n = eval (vals s) n) ->
+    (forall s n v m, indep n = true -> vals (set n v s) m = EndOfFitProofs.upd V (vals s) n v m) ->
+    (forall s m, vals (clone s) m = vals s m) ->
+    (forall a n, indep n = true -> eval a n = a n) ->
+    (forall a a' n, (forall m, a m = a' m) -> eval a n = eval a' n) ->
+    forall pops : list string,
+    NoDup pops ->
+    (forall pp, In pp pops -> indep pp = true) ->
+    (forall k pp g g', (forall q, In q (prior_params pp) -> g q = g' q) -> stat k pp g = stat k pp g') ->
+    (forall pp q, In pp pops -> In q (prior_params pp) -> indep q = true /\ ~ In q pops) ->
+    forall rn : St -> event V St -> option St,
+    (forall s e, event_ok V St indep pops e ->
+       exists x y, rn s e = Some x /\ run_event V St get set clone stat isset pops s e = Some y /\ forall m, vals x m = vals y m) ->
+    forall (h1 : list (event V St)) (e1 : event V St) (r1 : list (list string)) (s1 : St)
+           (h2 : list (event V St)) (e2 : event V St) (r2 : list (list string)) (s2 : St),
+      Forall (event_ok V St indep pops) (h1 ++ [e1]) -> is_read e1 = false ->
+      Forall (event_ok V St indep pops) (h2 ++ [e2]) -> is_read e2 = false ->
+      exists m1 m2 f1 f2, run_hist V St rn h1 s1 = Some m1 /\ run_hist V St rn h2 s2 = Some m2 /\
+        run_hist V St rn (h1 ++ e1 :: reads V St r1) s1 = Some f1 /\ run_hist V St rn (h2 ++ e2 :: reads V St r2) s2 = Some f2 /\
+        ((forall q, ~ In q pops -> after V St vals e1 m1 q = after V St vals e2 m2 q) -> forall n, get f1 n = get f2 n).
+Proof. exact history_independent. Qed.
+Print Assumptions C12_history_independent.
+
+(** On the REAL State model, scripts as the code runs them (caching reads before every assignment, reads of the compared
+    derived values), from any State object of any store reachable from [init_store]: no store hypothesis left. *)
+Theorem C12_history_self_consistent_reachable :
+  forall (V M IX : Type) (g : graph V) (sm : sem V M IX) (W : WF g), F_mix g sm ->
+  forall (names : list string), NoDup names -> List.length names = gn g ->
+  forall (stat : prior_stat -> string -> (string -> option V) -> option V) (prior_params : string -> list string) (pops : list string),
+    NoDup pops ->
+    (forall pp, In pp pops -> s_indep V g names pp = true) ->
+    (forall k pp f f', (forall q, In q (prior_params pp) -> f q = f' q) -> stat k pp f = stat k pp f') ->
+    (forall pp q, In pp pops -> In q (prior_params pp) -> s_indep V g names q = true /\ ~ In q pops) ->
+    forall (S : StateModel.store V) (k : nat) (s : state V)
+           (h : list (event (option V) (gstate V g))) (e : event (option V) (gstate V g)) (rs : list (list string)),
+      Reach V g M IX sm S -> nth_error S k = Some s ->
+      Forall (event_ok (option V) (gstate V g) (s_indep V g names) pops) (h ++ [e]) -> is_read e = false ->
+      exists gs : gstate V g, proj1_sig gs = s /\
+      exists s1 s', run_history_cached V g W names stat prior_params pops h gs = Some s1 /\
+        run_history_cached V g W names stat prior_params pops (h ++ e :: reads (option V) (gstate V g) rs) gs = Some s' /\
+        at_mode (option V) (gstate V g) (s_get V g names) stat pops s' /\
+        (forall q, s_indep V g names q = true -> ~ In q pops ->
+           s_get V g names s' q = after (option V) (gstate V g) (s_vals V g names) e s1 q) /\
+        (forall n, s_get V g names s' n =
+           s_eval V g names (fresh_model (option V) stat pops (after (option V) (gstate V g) (s_vals V g names) e s1)) n).
+Proof. exact history_self_consistent_reach. Qed.
+Print Assumptions C12_history_self_consistent_reachable.
+
+(** ... after a last load_parameters(a) the parameters read back are exactly the provided values *)
+Theorem C12_history_last_load_params_state :
+  forall (V : Type) (g : graph V) (W : WF g) (names : list string), NoDup names -> List.length names = gn g ->
+  forall (stat : prior_stat -> string -> (string -> option V) -> option V) (prior_params : string -> list string) (pops : list string),
+    NoDup pops ->
+    (forall pp, In pp pops -> s_indep V g names pp = true) ->
+    (forall k pp f f', (forall q, In q (prior_params pp) -> f q = f' q) -> stat k pp f = stat k pp f') ->
+    (forall pp q, In pp pops -> In q (prior_params pp) -> s_indep V g names q = true /\ ~ In q pops) ->
+    forall (h : list (event (option V) (gstate V g))) (a : list (string * option V)) (cmp : list string) (rs : list (list string))
+           (s : gstate V g),
+      Forall (event_ok (option V) (gstate V g) (s_indep V g names) pops) (h ++ [EvLoad a cmp]) -> NoDup (map fst a) ->
+      exists s', run_history_cached V g W names stat prior_params pops (h ++ EvLoad a cmp :: reads (option V) (gstate V g) rs) s = Some s' /\
+        at_mode (option V) (gstate V g) (s_get V g names) stat pops s' /\
+        forall p v, In (p, v) a -> s_get V g names s' p = v.
+Proof. exact history_last_load_params_cached. Qed.
+Print Assumptions C12_history_last_load_params_state.
+
+(** An OLD model object (any reachable State object, any history, then load_parameters(a)) reads exactly like a FRESH one
+    (any other reachable State object, load_parameters(a) only) as soon as what [a] does not provide is the same in both. *)
+Theorem C12_history_vs_fresh_reachable :
+  forall (V M IX : Type) (g : graph V) (sm : sem V M IX) (W : WF g), F_mix g sm ->
+  forall (names : list string), NoDup names -> List.length names = gn g ->
+  forall (stat : prior_stat -> string -> (string -> option V) -> option V) (prior_params : string -> list string) (pops : list string),
+    NoDup pops ->
+    (forall pp, In pp pops -> s_indep V g names pp = true) ->
+    (forall k pp f f', (forall q, In q (prior_params pp) -> f q = f' q) -> stat k pp f = stat k pp f') ->
+    (forall pp q, In pp pops -> In q (prior_params pp) -> s_indep V g names q = true /\ ~ In q pops) ->
+    forall (S S0 : StateModel.store V) (k k0 : nat) (s s0 : state V)
+           (h : list (event (option V) (gstate V g))) (a : list (string * option V)) (cmp : list string) (rs : list (list string)),
+      Reach V g M IX sm S -> nth_error S k = Some s -> Reach V g M IX sm S0 -> nth_error S0 k0 = Some s0 ->
+      Forall (event_ok (option V) (gstate V g) (s_indep V g names) pops) (h ++ [EvLoad a cmp]) ->
+      exists gs gs0 : gstate V g, proj1_sig gs = s /\ proj1_sig gs0 = s0 /\
+      exists s1 s' f, run_history_cached V g W names stat prior_params pops h gs = Some s1 /\
+        run_history_cached V g W names stat prior_params pops (h ++ EvLoad a cmp :: reads (option V) (gstate V g) rs) gs = Some s' /\
+        run_history_cached V g W names stat prior_params pops [EvLoad a cmp] gs0 = Some f /\
+        ((forall q, ~ In q pops -> ~ In q (map fst a) -> s_vals V g names s1 q = s_vals V g names gs0 q) ->
+         forall n, s_get V g names s' n = s_get V g names f n).
+Proof. exact history_vs_fresh_reach. Qed.
+Print Assumptions C12_history_vs_fresh_reachable.
+
+(** Why the reset must be unconditional: with the guard "only if the population variables are not all set" the faithful
+    model leaves the OLD population variable and derived value after a second load_parameters (7 and 14, the mode being 9). *)
+Theorem C12_guarded_reset_refuted :
+  let s1 := ToyHistory.guarded_load [("log_v0_mean", 7%nat)] ToyHistory.blank in
+  let s2 := ToyHistory.guarded_load [("log_v0_mean", 9%nat)] s1 in
+  (Toy.get s1 "log_v0", Toy.get s1 "v0") = (7, 14)%nat /\
+  Toy.get s2 "log_v0_mean" = 9%nat /\ Toy.stat UseMode "log_v0" (Toy.get s2) = 9%nat /\ (Toy.get s2 "log_v0", Toy.get s2 "v0") = (7, 14)%nat /\
+  ToyHistory.guarded_ops <> load_parameters_ops.
+Proof. exact ToyHistory.guarded_reset_refuted. Qed.
+Print Assumptions C12_guarded_reset_refuted.
+
+(** Non-vacuity on the 7-node graph, State object 0 of the store left by the 14-operation past, scripts with caching reads:
+    load_parameters(9) -> observer -> fit (iterations leave 5 / 3) -> load_parameters(11) -> observer; the events satisfy the hypothesis. *)
+Theorem C12_history_example :
+  Forall (event_ok (option xval) DemoHistory.gst (s_indep xval Demo.g Demo.names) Demo.pops) DemoHistory.h3 /\
+  DemoHistory.view (DemoHistory.run (firstn 1 DemoHistory.h3) Demo.gs0)
+    = Some [DemoHistory.num 9; DemoHistory.num 9; DemoHistory.num 18; DemoHistory.num 126] /\
+  DemoHistory.view (DemoHistory.run (firstn 3 DemoHistory.h3) Demo.gs0)
+    = Some [DemoHistory.num 5; DemoHistory.num 5; DemoHistory.num 10; DemoHistory.num 118] /\
+  DemoHistory.view (DemoHistory.run DemoHistory.h3 Demo.gs0)
+    = Some [DemoHistory.num 11; DemoHistory.num 11; DemoHistory.num 22; DemoHistory.num 130].
+Proof. exact (conj DemoHistory.history_events_ok DemoHistory.history_runs). Qed.
+Print Assumptions C12_history_example.
